@@ -491,6 +491,116 @@ def ob_array(name, nval=1, seed=0):
     return res
 
 
+REPLAY_PARR = '''
+import numpy as np
+from chempy.kinetics import integrated
+f = getattr(integrated, %(fn)r)
+name, nval, pname = %(name)r, %(nval)d, %(pname)r
+pt = %(pt)s
+scope = dict(pt); scope.update(f=f, be=np, n=nval, T=pt["t"])
+call = %(call)r
+A = np.array([pt[pname], pt[pname] * 1.5 + 0.125]); A0 = A.copy()
+scope[pname] = A
+r1 = eval(call, {}, scope)
+r1 = [np.array(c, dtype=float).copy() for c in (r1 if isinstance(r1, tuple) else [r1])]
+bad = []
+if not (A == A0).all(): bad.append("the call changed the caller's %%s array: %%s -> %%s" %% (pname, A0, A))
+scope[pname] = A0.copy()
+r2 = eval(call, {}, scope)
+r2 = [np.array(c, dtype=float) for c in (r2 if isinstance(r2, tuple) else [r2])]
+for i, (a, b) in enumerate(zip(r1, r2)):
+    if not np.allclose(a, b, rtol=1e-12, atol=0): bad.append("component %%d: a second evaluation gives %%s, first gave %%s" %% (i, b, a))
+for j in range(2):
+    scope[pname] = float(A0[j])
+    rs = eval(call, {}, scope)
+    rs = list(rs) if isinstance(rs, tuple) else [rs]
+    for i, v in enumerate(rs):
+        if abs(float(v) - r1[i][j]) > 1e-9 * abs(float(v)): bad.append("component %%d at %%s[%%d]: array evaluation %%r, scalar evaluation %%r" %% (i, pname, j, r1[i][j], float(v)))
+for b in bad: print("MISMATCH", b)
+sys.exit(1 if bad else 0)
+'''
+
+
+def ob_param_array(name, nval=1, seed=0):
+    """history with an array-valued PARAMETER (one at a time, object ndarray of two symbolic values, scalar time): element-wise the same
+    as the two scalar evaluations, and the caller's array still holds its values afterwards"""
+    import numpy as np
+    from chempy.kinetics import integrated
+    from vlib.zrun import wrapper_exc
+
+    t0_ = time.time()
+    spec = CASES[name]
+    f = getattr(integrated, spec.get("fn", name))
+    P = {p: Real(p) for p in spec["params"]}
+    P2 = {p: Real(p + "_b") for p in spec["params"]}
+    tsym = Real("t")
+    be = ZBackend()
+    call = "f(T," + spec["call"].split(",", 1)[1]
+    res = dict(engine="Z", functions=[env.describe(f)], obligations=0, discharged=0, violations=[], inconclusive=[], queries=0, solver_s=0.0,
+               bounds="each parameter in turn as an array of 2 symbolic values, scalar symbolic time", sample={"function": name, "call": call},
+               skipped=[])
+    assum = [(q[p].t >= 0) if p in MAY_BE_ZERO else (q[p].t > 0) for p in spec["params"] for q in (P, P2)] + [tsym.t >= 0]
+    for pname in spec["params"]:
+        if pname == "t0":
+            continue
+        scope = dict(P)
+        scope.update(f=f, be=be, n=nval, T=tsym + (P["t0"] if "t0" in P else 0))
+        try:
+            A = np.array([P[pname], P2[pname]], dtype=object)
+            scope[pname] = A
+            r1 = eval(call, {}, scope)
+            r1 = [list(c) for c in (r1 if isinstance(r1, tuple) else [r1])]
+            after = list(A)
+            scal = []
+            for v in (P[pname], P2[pname]):
+                scope[pname] = v
+                rs = eval(call, {}, scope)
+                scal.append(list(rs) if isinstance(rs, tuple) else [rs])
+        except Exception as e:
+            if wrapper_exc(e) or isinstance(e, (TypeError, ValueError)):
+                res["skipped"].append("%s: %r" % (pname, e))     # array-valued use of this parameter is not carried (not counted)
+                continue
+            raise
+        goals = []
+        for i in range(len(r1)):
+            for j in range(2):
+                goals.append(("scalar", term(r1[i][j]) == term(scal[j][i])))
+        goals.append(("untouched", z3.And(term(after[0]) == P[pname].t, term(after[1]) == P2[pname].t)))
+        bad = None
+        for kind, g in goals:
+            res["obligations"] += 1
+            norm = UFNorm(assum, timeout_ms=10000)
+            v, m = norm.prove(g, timeout_ms=30000)
+            res["queries"] += 1 + norm.stats["arg_queries"]
+            if v == "unsat":
+                res["discharged"] += 1
+            elif v == "sat":
+                bad = bad or kind
+            else:
+                res["inconclusive"].append("%s/%s: solver %s" % (pname, kind, v))
+        if bad:
+            pt = _arr_point(name, spec)
+            res["violations"].append(dict(key="%s.parray.%s.%s" % (name, pname, bad), soft=True,
+                                          desc="%s with an array for %s: %s" % (name, pname, {"untouched": "the caller's array was modified",
+                                                                                               "scalar": "differs from the scalar evaluations"}[bad]),
+                                          replay_src=REPLAY_PARR % dict(fn=spec.get("fn", name), name=name, nval=nval, pname=pname, pt=repr(pt),
+                                                                        call=call.replace("T,", "T + t0," if name.endswith("_t0") else "T,", 1))))
+    res["twin"] = "n/a"
+    res["solver_s"] = time.time() - t0_
+    res["status"] = "violation" if res["violations"] else ("inconclusive" if res["inconclusive"] else "discharged")
+    return res
+
+
+def _arr_point(name, spec):
+    pt = {p: 0.5 + 0.25 * i for i, p in enumerate(spec["params"])}
+    if "major" in pt:
+        pt["major"], pt["minor"] = 3.0, 0.75
+    if name == "binary_irrev_cstr":
+        pt.update(k=0.5, r=0.1, fr=2.0, fv=1.5)
+    pt["t"] = 0.7
+    return pt
+
+
 def _arr_replay(name, nval, spec, call):
     pt = {p: 0.5 + 0.25 * i for i, p in enumerate(spec["params"])}
     if "major" in pt:
@@ -513,5 +623,6 @@ def tasks(tier, seed):
                                fn="ob", kwargs=dict(name=name, kind=kind, nval=nval, seed=seed), timeout=300))
     for name in CASES:
         ts.append(dict(id="C17.%s.array" % name, fn="ob_array", kwargs=dict(name=name, nval=1, seed=seed), timeout=300))
+        ts.append(dict(id="C17.%s.param_array" % name, fn="ob_param_array", kwargs=dict(name=name, nval=1, seed=seed), timeout=600))
     ts.append(dict(id="C17.binary_rev.discriminant", fn="ob_disc", kwargs=dict(seed=seed), timeout=120))
     return ts
